@@ -273,126 +273,197 @@ pub fn rule_of(prop: &str) -> &'static str {
     }
 }
 
+#[derive(Default)]
+struct Agg {
+    runs: u64,
+    evaluations: u64,
+    keys: BTreeSet<u64>,
+    counters: BTreeMap<String, u64>,
+    samples: Vec<(u64, Value)>,
+    states: BTreeSet<u64>,
+    trigrams: BTreeSet<u64>,
+    steps: u64,
+    sim_s: u64,
+    blocks: u64,
+    ok: u64,
+    err: u64,
+    pan: u64,
+    forks: u64,
+    harness_errors: Vec<(u64, String)>,
+    world_kinds: BTreeMap<String, u64>,
+    sig_counts: BTreeMap<String, u64>,
+    /// runs that produced a violation keep their full history (needed for minimisation)
+    violating: Vec<RunResult>,
+    open_sigs: BTreeSet<String>,
+}
+
+impl Agg {
+    fn absorb(&mut self, r: RunResult) {
+        self.runs += 1;
+        if let Some(p) = &r.harness_panic {
+            self.harness_errors.push((r.run, format!("harness panic: {}", p)));
+            return;
+        }
+        self.evaluations += r.ev.evaluations;
+        self.keys.extend(r.ev.nontrivial_keys.iter());
+        for (k, v) in r.ev.counters.iter() {
+            *self.counters.entry(k.clone()).or_insert(0) += v;
+        }
+        for s in r.ev.samples.iter() {
+            self.samples.push((r.run, s.clone()));
+        }
+        self.samples.sort_by_key(|x| x.0);
+        self.samples.truncate(5);
+        self.states.extend(r.states.iter());
+        self.trigrams.extend(r.trigrams.iter());
+        self.steps += r.n_steps;
+        self.sim_s += r.sim_seconds;
+        self.blocks += r.blocks;
+        self.ok += r.tx_ok;
+        self.err += r.tx_err;
+        self.pan += r.tx_panic;
+        self.forks += r.ev.forks;
+        for e in r.ev.harness_errors.iter() {
+            if self.harness_errors.len() < 10 {
+                self.harness_errors.push((r.run, e.clone()));
+            }
+        }
+        if let Some(w) = &r.world {
+            let k = format!("{:?}/{}/{:?}", w.kind, if w.coll.is_native() { "native".to_string() } else { format!("cw20-{}", w.coll.decimals()) }, w.oracle);
+            *self.world_kinds.entry(k).or_insert(0) += 1;
+        }
+        for v in r.ev.violations.iter() {
+            *self.sig_counts.entry(v.signature.clone()).or_insert(0) += 1;
+        }
+        // histories are kept only for violations that no open known finding explains
+        if r.ev.violations.iter().any(|v| !self.open_sigs.contains(&v.signature)) {
+            self.violating.push(r);
+            if self.violating.len() > 512 {
+                // keep the lowest run indices so that what is reported does not depend on worker timing
+                let (mi, _) = self.violating.iter().enumerate().max_by_key(|(_, x)| x.run).unwrap();
+                self.violating.swap_remove(mi);
+            }
+        }
+    }
+    fn merge(&mut self, o: Agg) {
+        self.runs += o.runs;
+        self.evaluations += o.evaluations;
+        self.keys.extend(o.keys);
+        for (k, v) in o.counters {
+            *self.counters.entry(k).or_insert(0) += v;
+        }
+        self.samples.extend(o.samples);
+        self.samples.sort_by_key(|x| x.0);
+        self.samples.truncate(5);
+        self.states.extend(o.states);
+        self.trigrams.extend(o.trigrams);
+        self.steps += o.steps;
+        self.sim_s += o.sim_s;
+        self.blocks += o.blocks;
+        self.ok += o.ok;
+        self.err += o.err;
+        self.pan += o.pan;
+        self.forks += o.forks;
+        self.harness_errors.extend(o.harness_errors);
+        for (k, v) in o.world_kinds {
+            *self.world_kinds.entry(k).or_insert(0) += v;
+        }
+        for (k, v) in o.sig_counts {
+            *self.sig_counts.entry(k).or_insert(0) += v;
+        }
+        self.violating.extend(o.violating);
+        self.violating.sort_by_key(|x| x.run);
+        self.violating.truncate(512);
+    }
+}
+
 #[allow(clippy::too_many_arguments)]
 pub fn run_batch(prop: &str, seed: u64, runs: u64, workers: usize, wall_cap_s: u64, verif: &str, tier: &str, min_budget: usize) -> BatchOut {
     let t0 = Instant::now();
     let next = AtomicU64::new(0);
     let stop = AtomicBool::new(false);
-    let results: Mutex<Vec<RunResult>> = Mutex::new(Vec::new());
+    let known = load_known(verif);
+    let open_sigs: BTreeSet<String> = known.iter().filter(|k| k.property == prop && k.status == "open").map(|k| k.signature.clone()).collect();
+    let total: Mutex<Agg> = Mutex::new(Agg { open_sigs: open_sigs.clone(), ..Default::default() });
     std::thread::scope(|s| {
         for _ in 0..workers.max(1) {
-            s.spawn(|| loop {
-                if stop.load(Ordering::Relaxed) {
-                    break;
-                }
-                let i = next.fetch_add(1, Ordering::Relaxed);
-                if i >= runs {
-                    break;
-                }
-                let res = match std::panic::catch_unwind(|| one_run(prop, seed, i, false)) {
-                    Ok(r) => r,
-                    Err(p) => {
-                        let msg = if let Some(s) = p.downcast_ref::<String>() {
-                            s.clone()
-                        } else if let Some(s) = p.downcast_ref::<&str>() {
-                            s.to_string()
-                        } else {
-                            "panic".into()
-                        };
-                        RunResult { run: i, harness_panic: Some(format!("{} [{}]", msg, crate::last_panic())), ..Default::default() }
+            s.spawn(|| {
+                let mut local = Agg { open_sigs: open_sigs.clone(), ..Default::default() };
+                loop {
+                    if stop.load(Ordering::Relaxed) {
+                        break;
                     }
-                };
-                results.lock().unwrap().push(res);
-                if t0.elapsed().as_secs() > wall_cap_s {
-                    stop.store(true, Ordering::Relaxed);
+                    let i = next.fetch_add(1, Ordering::Relaxed);
+                    if i >= runs {
+                        break;
+                    }
+                    let res = match std::panic::catch_unwind(|| one_run(prop, seed, i, false)) {
+                        Ok(r) => r,
+                        Err(p) => {
+                            let msg = if let Some(s) = p.downcast_ref::<String>() {
+                                s.clone()
+                            } else if let Some(s) = p.downcast_ref::<&str>() {
+                                s.to_string()
+                            } else {
+                                "panic".into()
+                            };
+                            RunResult { run: i, harness_panic: Some(format!("{} [{}]", msg, crate::last_panic())), ..Default::default() }
+                        }
+                    };
+                    local.absorb(res);
+                    if t0.elapsed().as_secs() > wall_cap_s {
+                        stop.store(true, Ordering::Relaxed);
+                    }
                 }
+                total.lock().unwrap().merge(local);
             });
         }
     });
-    let mut results = results.into_inner().unwrap();
-    results.sort_by_key(|r| r.run);
-    // a truncated batch keeps only the contiguous prefix of run indices so the explored set stays a function of the seed
-    let mut done = 0u64;
-    for r in results.iter() {
-        if r.run == done {
-            done += 1;
-        } else {
-            break;
-        }
-    }
+    let mut agg = total.into_inner().unwrap();
+    let done = agg.runs;
     let truncated = done < runs;
-    results.truncate(done as usize);
+    agg.violating.sort_by_key(|r| r.run);
+    agg.harness_errors.sort();
 
-    let known = load_known(verif);
-    let open_sigs: BTreeSet<String> = known.iter().filter(|k| k.property == prop && k.status == "open").map(|k| k.signature.clone()).collect();
-
-    let mut evaluations = 0u64;
-    let mut keys: BTreeSet<u64> = BTreeSet::new();
-    let mut counters: BTreeMap<String, u64> = BTreeMap::new();
-    let mut samples: Vec<Value> = vec![];
-    let mut states: BTreeSet<u64> = BTreeSet::new();
-    let mut trigrams: BTreeSet<u64> = BTreeSet::new();
-    let (mut steps, mut sim_s, mut blocks, mut ok, mut err, mut pan, mut forks) = (0u64, 0u64, 0u64, 0u64, 0u64, 0u64, 0u64);
-    let mut harness_errors: Vec<String> = vec![];
-    let mut first_by_sig: BTreeMap<String, (u64, Violation)> = BTreeMap::new();
-    let mut sig_counts: BTreeMap<String, u64> = BTreeMap::new();
-    let mut world_kinds: BTreeMap<String, u64> = BTreeMap::new();
-    for r in results.iter() {
-        if let Some(p) = &r.harness_panic {
-            harness_errors.push(format!("run {}: harness panic: {}", r.run, p));
-            continue;
-        }
-        evaluations += r.ev.evaluations;
-        keys.extend(r.ev.nontrivial_keys.iter());
-        for (k, v) in r.ev.counters.iter() {
-            *counters.entry(k.clone()).or_insert(0) += v;
-        }
-        for s in r.ev.samples.iter() {
-            if samples.len() < 5 {
-                samples.push(s.clone());
-            }
-        }
-        states.extend(r.states.iter());
-        trigrams.extend(r.trigrams.iter());
-        steps += r.n_steps;
-        sim_s += r.sim_seconds;
-        blocks += r.blocks;
-        ok += r.tx_ok;
-        err += r.tx_err;
-        pan += r.tx_panic;
-        forks += r.ev.forks;
-        for e in r.ev.harness_errors.iter() {
-            if harness_errors.len() < 10 {
-                harness_errors.push(format!("run {}: {}", r.run, e));
-            }
-        }
-        if let Some(w) = &r.world {
-            let k = format!("{:?}/{}/{:?}", w.kind, if w.coll.is_native() { "native".to_string() } else { format!("cw20-{}", w.coll.decimals()) }, w.oracle);
-            *world_kinds.entry(k).or_insert(0) += 1;
-        }
+    let evaluations = agg.evaluations;
+    let keys = std::mem::take(&mut agg.keys);
+    let counters = std::mem::take(&mut agg.counters);
+    let samples: Vec<Value> = agg.samples.iter().map(|x| x.1.clone()).collect();
+    let states = std::mem::take(&mut agg.states);
+    let trigrams = std::mem::take(&mut agg.trigrams);
+    let (steps, sim_s, blocks, ok, err, pan, forks) = (agg.steps, agg.sim_s, agg.blocks, agg.ok, agg.err, agg.pan, agg.forks);
+    let harness_errors: Vec<String> = agg.harness_errors.iter().take(10).map(|(r, e)| format!("run {}: {}", r, e)).collect();
+    let sig_counts = std::mem::take(&mut agg.sig_counts);
+    let world_kinds = std::mem::take(&mut agg.world_kinds);
+    let mut first_by_sig: BTreeMap<String, (usize, Violation)> = BTreeMap::new();
+    for (idx, r) in agg.violating.iter().enumerate() {
         for v in r.ev.violations.iter() {
-            *sig_counts.entry(v.signature.clone()).or_insert(0) += 1;
-            first_by_sig.entry(v.signature.clone()).or_insert((r.run, v.clone()));
+            first_by_sig.entry(v.signature.clone()).or_insert((idx, v.clone()));
         }
     }
+    let results = &agg.violating;
 
     // minimise and write a replay for every distinct new signature (lowest run index first)
     let mut violations: Vec<(ReplayFile, bool)> = vec![];
     let mut known_hits: BTreeMap<String, u64> = BTreeMap::new();
-    let mut new_sigs: Vec<(String, u64, Violation)> = vec![];
-    for (sig, (run, v)) in first_by_sig.iter() {
+    let mut new_sigs: Vec<(String, usize, Violation)> = vec![];
+    for (sig, n) in sig_counts.iter() {
         if open_sigs.contains(sig) {
-            known_hits.insert(sig.clone(), *sig_counts.get(sig).unwrap_or(&0));
-        } else {
-            new_sigs.push((sig.clone(), *run, v.clone()));
+            known_hits.insert(sig.clone(), *n);
+        }
+    }
+    for (sig, (idx, v)) in first_by_sig.iter() {
+        if !open_sigs.contains(sig) {
+            new_sigs.push((sig.clone(), *idx, v.clone()));
         }
     }
     if let Ok(f) = std::env::var("PERPSIM_ONLY_SIG") {
         new_sigs.retain(|x| x.0.contains(&f));
     }
     new_sigs.sort_by_key(|x| x.1);
-    for (sig, run, v) in new_sigs.iter().take(6) {
-        let rr = &results[*run as usize];
+    for (sig, idx, v) in new_sigs.iter().take(6) {
+        let rr = &results[*idx];
+        let run = &rr.run;
         let cfg = rr.world.clone().unwrap();
         let min_steps = minimise(prop, &cfg, &rr.steps, sig, min_budget);
         let check = run_history(prop, &cfg, &min_steps, false);
